@@ -87,6 +87,7 @@ func genC05CaseFor(t *rapid.T, rule string) (c *ScalarCase, class string) {
 	class = pick3(t)
 	c = &ScalarCase{RePats: map[string]string{}}
 	item := rule
+	reDecoy := ""
 	setStr := func(member string) {
 		v := member
 		switch class {
@@ -333,6 +334,14 @@ func genC05CaseFor(t *rapid.T, rule string) (c *ScalarCase, class string) {
 			// expressions holds, and meets each of them again later
 			n := 1 + int(rapid.Uint64().Draw(t, "reFamilyN")%700) // (spread evenly: range draws favour small values)
 			p.pat, p.hit, p.miss = fmt.Sprintf("^k{%d}b$", n), strings.Repeat("k", n)+"b", strings.Repeat("k", n+1)+"b"
+		} else if rapid.IntRange(0, 5).Draw(t, "reCollision") == 0 {
+			// two patterns that collide under a common 32-bit string hash (collide_test.go): the other one is
+			// used by an earlier call on the same value, then ours is judged
+			pair := rapid.SampledFrom(collidingRes()).Draw(t, "rePair")
+			side := rapid.IntRange(0, 1).Draw(t, "reSide")
+			w := strings.Trim(pair[side], "^$")
+			p.pat, p.hit, p.miss = pair[side], w, strings.Trim(pair[1-side], "^$")
+			reDecoy = "re='" + pair[1-side] + "'"
 		}
 		item = "re='" + p.pat + "'"
 		switch class {
@@ -367,7 +376,14 @@ func genC05CaseFor(t *rapid.T, rule string) (c *ScalarCase, class string) {
 		}
 	}
 	c.Carrier = rapid.SampledFrom([]string{"var", "tag", "tag", "rm"}).Draw(t, "carrier")
+	if reDecoy != "" {
+		c.Carrier = "tag"
+	}
 	finishScalar(t, c)
+	if reDecoy != "" && c.Carrier == "tag" {
+		c.Decoy = reDecoy
+		ev.Class("re-patterns-with-colliding-32-bit-hashes")
+	}
 	return c, class
 }
 
